@@ -63,6 +63,7 @@ class Runner(object):
         self.cm = cm
         self.loads = 0
         self.known_keysets = {f: [] for f in netdesc.FORMATS}
+        self.unexplained = {}     # class -> first differing leaf that binary-double conversion does not explain
 
     def classes(self, fmt, desc, lex, enc, want_db=False):
         """failure classes of one rendering: {class: detail}"""
@@ -164,6 +165,7 @@ class Runner(object):
                         pass
                 if inexact and abs(da - dbb) <= scale * decimal.Decimal("1e-15"):
                     continue
+            self.unexplained[cls] = (path, a, b)
             return False
         return True
 
@@ -299,6 +301,7 @@ def run(chk):
                 chk.count("%s:fail" % fmt)
                 done_keys = set()
                 for cls in sorted(cl):
+                    runner.unexplained.pop(cls, None)
                     key, mlex, menc = runner.attribute(fmt, desc, lex, enc, cls)
                     if key in done_keys:
                         continue
@@ -313,6 +316,8 @@ def run(chk):
                     sdesc = runner.shrink(fmt, desc, mlex, menc, cls) if n == 0 else desc
                     mcl = runner.classes(fmt, sdesc, mlex, menc)
                     path, a, b = mcl.get(cls, cl[cls])
+                    if key.endswith("num.kind=native") and cls in runner.unexplained:
+                        path, a, b = runner.unexplained[cls]      # show the leaf that is NOT the known float inexactness
                     data_s, opts_s = R.render_with_opts(sdesc, mlex, menc)
                     chk.violation(key, "reader does not recover the described %s from a well-formed %s file (%s)" % (cls, fmt.upper(), path),
                                   dict(format=fmt, encoding=menc, reader_options=opts_s, lexical_choices=netdesc.to_jsonable(mlex),
